@@ -71,3 +71,20 @@ def run_thresholds(ctx, timeout=900):
         ctx.oblige("gen-compiles:Fun5.v", False, out[-800:])
         return False
     return core.compile_and_record(ctx, os.path.join(core.COQ, "Tie", "C05.v"), "Tie/C05.v", extra_q=q, subdir="Tie", timeout=timeout)
+
+
+def run_flag(ctx, flag, gen_file, tie_rel, timeout=900):
+    """one more target of tools/pytrans2.py: regenerate <gen_file> with <flag>, compile it and the tie file"""
+    gen = os.path.join(ctx.work, "Gen")
+    tie = os.path.join(ctx.work, "Tie")
+    p = subprocess.run([sys.executable, os.path.join(core.ROOT, "tools", "pytrans2.py"), core.REPO, gen, flag],
+                       capture_output=True, text=True)
+    if p.returncode != 0:
+        ctx.oblige("translator:" + tie_rel, False, (p.stdout + p.stderr)[-800:])
+        return False
+    q = ["-Q", gen, "InToto.Gen", "-Q", tie, "InToto.Tie"]
+    rc, out = core.coqc(os.path.join(gen, gen_file), extra_q=q, timeout=timeout)
+    if rc != 0:
+        ctx.oblige("gen-compiles:" + gen_file, False, out[-800:])
+        return False
+    return core.compile_and_record(ctx, os.path.join(core.COQ, tie_rel), tie_rel, extra_q=q, subdir="Tie", timeout=timeout)
